@@ -108,6 +108,12 @@ def run(ctx):
     ctx.sample({"tlc_rule_list": lists[len(lists) // 2]})
     trace, files = routerfam.run_mode(ctx, drv, "c10", ["-rules", rf])
     routerfam.validate(ctx, trace, only=["Inv_C10_", "Unconsumable"], require_events=len(lists) * 20)
+    # refresh-window scenario: background refreshes go to the rule's upstream with the entry's own question.
+    # Run once with poisoned buffers and once with released buffers handed straight back to the pool, so that a
+    # read of released memory is seen either as garbage or as another request's question.
+    for extra in ([], ["-nopoison"]):
+        tpf, _ = routerfam.run_mode(ctx, drv, "c10pf" + ("-np" if extra else ""), extra)
+        routerfam.validate(ctx, tpf, only=["Inv_C10_", "Unconsumable"], require_events=200)
     trace2, _ = routerfam.run_mode(ctx, drv, "c10boot")
     routerfam.validate(ctx, trace2, only=["Inv_C10_", "Unconsumable"], require_events=8)
     bt = binary_boots(ctx, ctx.quick)
